@@ -220,6 +220,8 @@ func lockedAt(fn *ssa.Function, in ssa.Instruction) bool {
 }
 
 func runC05(p *Prog, r *Report) {
+	// R8: the fallback duration is the configured one
+	checkConfiguredAsGiven(p, r, "C05.R8", "cbreaker", "CircuitBreaker", "FallbackDuration", "fallback duration")
 	cb := resolveCB(p, r, "C05.R0")
 	if cb == nil {
 		return
@@ -305,6 +307,69 @@ func runC05(p *Prog, r *Report) {
 		r.Paths++
 		r.Check(set&cb.ts.bit(cb.T) == 0, "C05.R3", fmt.Sprintf("%s: request let through #%d only when not tripped", tn, retOrdinal(cb.admit, ret)), p.InstrPos(ret),
 			"possible states at this return: "+cb.ts.SetString(set), "the admission routine lets a request through while the state may be tripped (possible states "+cb.ts.SetString(set)+")")
+	}
+	// the wrapped handler is reached only through the admission routine: in ServeHTTP every call that invokes the
+	// `next` handler (directly or through a method of the breaker) lies on the edge where the admission
+	// routine said "not shielded"
+	if sh := p.MethodOf(cb.typ, "ServeHTTP"); sh != nil && cb.nextF != "" {
+		callsNext := func(fn *ssa.Function) bool {
+			for _, c := range Calls(fn) {
+				if cc, ok := isHandlerServe(c); ok {
+					if u, ok := stripConv(cc.Value).(*ssa.UnOp); ok {
+						if nt, f, _, ok := fieldOf(u.X); ok && nt != nil && nt.Obj() == cb.typ.Obj() && f == cb.nextF {
+							return true
+						}
+					}
+				}
+			}
+			return false
+		}
+		var through []Edge
+		for _, c := range Calls(sh) {
+			call, ok := c.(*ssa.Call)
+			if !ok || call.Common().StaticCallee() != cb.admit {
+				continue
+			}
+			for _, ifi := range ifs(sh) {
+				cnd, pos := condStrip(ifi.Cond)
+				if cnd != ssa.Value(call) {
+					continue
+				}
+				k := 1 // admission returned false: let through
+				if !pos {
+					k = 0
+				}
+				through = append(through, Edge{ifi.Block(), k})
+			}
+		}
+		nNext := 0
+		for _, c := range Calls(sh) {
+			direct := false
+			if callee := c.Common().StaticCallee(); callee != nil && p.InModule(callee) && callee.Blocks != nil && recvNamed(callee) == cb.typ && callsNext(callee) {
+				direct = true
+			}
+			if cc, ok := isHandlerServe(c); ok {
+				if u, ok := stripConv(cc.Value).(*ssa.UnOp); ok {
+					if nt, f, _, ok := fieldOf(u.X); ok && nt != nil && nt.Obj() == cb.typ.Obj() && f == cb.nextF {
+						direct = true
+					}
+				}
+			}
+			if !direct {
+				continue
+			}
+			nNext++
+			okE := false
+			for _, e := range through {
+				if OnlyViaEdge(sh, c, e) {
+					okE = true
+				}
+			}
+			r.Paths++
+			r.Check(okE, "C05.R3", fmt.Sprintf("%s.ServeHTTP: wrapped handler call #%d only after the admission routine let the request through", tn, nNext), p.InstrPos(c),
+				"reachable only on the `not shielded` edge of the admission routine", "the wrapped handler can be invoked on a path that does not pass the admission routine's decision: such a request reaches the backend while the breaker is tripped")
+		}
+		r.Floor("C05.R3", nNext, 1, "invocations of the wrapped handler in ServeHTTP")
 	}
 	// time guards of the transitions out of tripped / into standby
 	nowUntilGE := ParseLin("now - fld(p0)."+cb.untilF, ">=")
@@ -498,6 +563,10 @@ func checkUntilArgs(p *Prog, r *Report, cb *cbInfo, rule string) {
 // ---------------- C12 ----------------
 
 func runC12(p *Prog, r *Report) {
+	// R9: the breaker judges re-admitted requests by their final status: the recording writer keeps the last status it was given (shared with C20.R3)
+	r.Borrow(p, c20Wrappers, map[string]string{"C20.R3": "C12.R9"}, func(o Ob) bool { return strings.Contains(o.Construct, "records every status") })
+	// R8: the recovery duration is the configured one
+	checkConfiguredAsGiven(p, r, "C12.R8", "cbreaker", "CircuitBreaker", "RecoveryDuration", "recovery duration")
 	cb := resolveCB(p, r, "C12.R0")
 	if cb == nil {
 		return
@@ -788,6 +857,12 @@ func runC12(p *Prog, r *Report) {
 // ---------------- C18 ----------------
 
 func runC18(p *Prog, r *Report) {
+	// R8: recording a completion and the reset at a trip cannot deadlock: the metrics' locks are taken in one order (shared with C09.R9)
+	if rt := p.Named("memmetrics", "RTMetrics"); rt != nil {
+		r.Floor("C18.R8", c09LockOrder(p, r, "C18.R8", []*types.Named{rt}), 1, "nested lock acquisitions of RTMetrics")
+	}
+	// R7: the check period is the configured one
+	checkConfiguredAsGiven(p, r, "C18.R7", "cbreaker", "CircuitBreaker", "CheckPeriod", "check period")
 	cb := resolveCB(p, r, "C18.R0")
 	if cb == nil {
 		return
@@ -1187,6 +1262,8 @@ func c18FunctionMap(p *Prog, r *Report, funcs map[string]*ssa.Function) {
 func mutantsC05() []Mutant {
 	f := "cbreaker/cbreaker.go"
 	return []Mutant{
+		{Name: "fallback-duration-adjusted-after-options", File: "cbreaker/cbreaker.go", Old: "\tcondition, err := parseExpression(expression)\n", New: "\tcb.fallbackDuration += cb.checkPeriod\n\tcondition, err := parseExpression(expression)\n", Expect: "C05.R8"},
+		{Name: "options-requests-bypass-the-breaker", File: "cbreaker/cbreaker.go", Old: "\tif c.activateFallback(w, req) {\n", New: "\tif req.Method == http.MethodOptions {\n\t\tc.next.ServeHTTP(w, req)\n\t\treturn\n\t}\n\tif c.activateFallback(w, req) {\n", Expect: "C05.R3"},
 		{Name: "before-to-after", File: f, Old: "\t\tif clock.Now().UTC().Before(c.until) {\n\t\t\treturn true\n\t\t}", New: "\t\tif clock.Now().UTC().After(c.until) {\n\t\t\treturn true\n\t\t}", Expect: "C05.R3"},
 		{Name: "trip-with-recovery-duration", File: f, Old: "c.setState(stateTripped, clock.Now().UTC().Add(c.fallbackDuration))", New: "c.setState(stateTripped, clock.Now().UTC().Add(c.recoveryDuration))", Expect: "C05.R4"},
 		{Name: "no-skip-when-tripped", File: f, Old: "\tif c.state == stateTripped {\n\t\tc.log.Debug(\"%v skip set tripped\", c)\n\t\treturn\n\t}\n", New: "", Expect: "C05.R2"},
@@ -1205,6 +1282,7 @@ func mutantsC05() []Mutant {
 func mutantsC12() []Mutant {
 	f, g := "cbreaker/ratio.go", "cbreaker/cbreaker.go"
 	return []Mutant{
+		{Name: "recovery-duration-adjusted-after-options", File: "cbreaker/cbreaker.go", Old: "\tcondition, err := parseExpression(expression)\n", New: "\tif cb.recoveryDuration < cb.checkPeriod {\n\t\tcb.recoveryDuration = cb.checkPeriod\n\t}\n\tcondition, err := parseExpression(expression)\n", Expect: "C12.R8"},
 		{Name: "lt-to-le", File: f, Old: "\tif e < t {", New: "\tif e <= t {", Expect: "C12.R1"},
 		{Name: "allowed-without-plus-one", File: f, Old: "e := r.computeRatio(r.allowed+1, r.denied)", New: "e := r.computeRatio(r.allowed, r.denied)", Expect: "C12.R1"},
 		{Name: "half-to-one", File: f, Old: "multiplier := 0.5 / float64(r.duration)", New: "multiplier := 1.0 / float64(r.duration)", Expect: "C12.R1"},
@@ -1222,6 +1300,7 @@ func mutantsC12() []Mutant {
 func mutantsC18() []Mutant {
 	f, g := "cbreaker/cbreaker.go", "cbreaker/predicates.go"
 	return []Mutant{
+		{Name: "check-period-defaulted-after-options", File: "cbreaker/cbreaker.go", Old: "\tcondition, err := parseExpression(expression)\n", New: "\tif cb.checkPeriod == 0 {\n\t\tcb.checkPeriod = defaultCheckPeriod\n\t}\n\tcondition, err := parseExpression(expression)\n", Expect: "C18.R7"},
 		{Name: "no-metrics-reset", File: f, Old: "\tc.setState(stateTripped, clock.Now().UTC().Add(c.fallbackDuration))\n\tc.metrics.Reset()\n", New: "\tc.setState(stateTripped, clock.Now().UTC().Add(c.fallbackDuration))\n", Expect: "C18.R3"},
 		{Name: "exec-from-check", File: f, Old: "\tc.setState(stateTripped, clock.Now().UTC().Add(c.fallbackDuration))\n\tc.metrics.Reset()\n", New: "\tc.setState(stateTripped, clock.Now().UTC().Add(c.fallbackDuration))\n\tc.exec(c.onTripped)\n\tc.metrics.Reset()\n", Expect: "C18.R4"},
 		{Name: "gt-bound-to-ge", File: g, Old: "\t\t\tGT:  gt,\n", New: "\t\t\tGT:  ge,\n", Expect: "C18.R1"},
